@@ -48,7 +48,7 @@ ASSUMPTIONS = [
   'all generated actions are valid; a rejected bundle is reported as C15:setup:bundle-rejected',
 ]
 BUDGET = {'quick': dict(examples=2400, shards=16, max_seconds=45),
-          'thorough': dict(examples=40000, shards=16, max_seconds=540)}
+          'thorough': dict(examples=40000, shards=16, max_seconds=1800)}
 SHRINK_BUDGET = {'quick': 150, 'thorough': 500}
 
 TABLE = 'Tab1'
